@@ -253,40 +253,45 @@ def run_kani(cwd, harnesses, gen_dir, out_dir, *, package=None, jobs=12, extra=(
 _VEC = re.compile(r"^\s*vec!\[([0-9,\s]*)\],?\s*$")
 
 
-def concrete_values(cwd, harnesses, gen_dir, out_dir, *, package=None, extra=(), timeout_s=1200,
-                    target_dir=KANI_TARGET, jobs=8):
-    """Ask Kani for the counterexamples of failing harnesses as the list of byte vectors their
-    kani::any() calls returned (--concrete-playback=print).  Returns {full_name: vals or None}."""
+def _playback_one(cwd, h, gen_dir, out_dir, package, extra, timeout_s, target_dir, idx):
     cmd = ["cargo", "kani", "--target-dir", target_dir, "-Z", "stubbing", "-Z", "concrete-playback",
-           "--concrete-playback=print", "--exact", "--output-format", "terse"]  # (-j is rejected with playback)
+           "--concrete-playback=print", "--exact", "--output-format", "terse", "--harness", h]
     if package:
         cmd += ["-p", package]
     cmd += list(extra)
-    for h in harnesses:
-        cmd += ["--harness", h]
-    logp = os.path.join(out_dir, "playback.log")
+    logp = os.path.join(out_dir, "playback-%d.log" % idx)
     with open(logp, "w") as lf:
         try:
-            subprocess.run(cmd, cwd=cwd, env=kani_env(gen_dir), stdout=lf, stderr=subprocess.STDOUT,
-                           timeout=timeout_s)
+            subprocess.run(cmd, cwd=cwd, env=kani_env(gen_dir), stdout=lf, stderr=subprocess.STDOUT, timeout=timeout_s)
         except subprocess.TimeoutExpired:
-            subprocess.run(["pkill", "-x", "cbmc"])
-    text = open(logp, errors="replace").read()
+            pass
+    return open(logp, errors="replace").read()
+
+
+def concrete_values(cwd, harnesses, gen_dir, out_dir, *, package=None, extra=(), timeout_s=1500,
+                    target_dir=KANI_TARGET, jobs=4):
+    """Ask Kani for the counterexamples of failing harnesses as the list of byte vectors their
+    kani::any() calls returned (--concrete-playback=print; that flag rejects -j, so one cargo-kani
+    process per harness, run concurrently: the builds serialise on cargo's lock, the solver runs overlap).
+    Returns {full_name: vals or None}."""
+    from concurrent.futures import ThreadPoolExecutor
     out = {h: None for h in harnesses}
-    # generated tests are named kani_concrete_playback_<harness fn>_<hash>
-    for m in re.finditer(r"fn kani_concrete_playback_(\w+?)_(\d+)\(\)\s*\{\s*let concrete_vals: Vec<Vec<u8>> = vec!\[(.*?)\n\s*\];",
-                         text, re.S):
-        fn = m.group(1)
+    with ThreadPoolExecutor(max_workers=jobs) as ex:
+        futs = {h: ex.submit(_playback_one, cwd, h, gen_dir, out_dir, package, extra, timeout_s, target_dir, i)
+                for i, h in enumerate(harnesses)}
+    for h, f in futs.items():
+        text = f.result()
+        m = re.search(r"let concrete_vals: Vec<Vec<u8>> = vec!\[(.*?)\n\s*\];", text, re.S)
+        if not m:
+            continue
         vals = []
-        for line in m.group(3).splitlines():
+        for line in m.group(1).splitlines():
             vm = _VEC.match(line)
             if vm:
                 body = vm.group(1).strip()
                 vals.append([int(x) for x in body.replace(" ", "").split(",") if x != ""])
-        for h in harnesses:
-            if h.split("::")[-1] == fn and out[h] is None:
-                out[h] = vals
-    return out, logp
+        out[h] = vals
+    return out, os.path.join(out_dir, "playback-0.log")
 
 
 # ---------------------------------------------------------------------------
